@@ -2,18 +2,22 @@ import os, sys, json
 sys.path.insert(0, os.path.dirname(__file__))
 import alloc_common as ac
 import poolstatus_part
+import allocmaps_part
 
 SIGS = {'alloc-checksharing-vs-statement','alloc-ghost-or-lost','alloc-released-not-reusable','counters-assigned-wrong','counters-negative','counters-sum-wrong'}
 
 def run(ctx):
-    ctx.coq_build(["Properties/C11.v"] + ac.COQ_FILES)
-    ctx.coq_theorems("Properties/C11.v", ac.CLOSURE + ["Proofs/AllocP.v", "Proofs/AllocPolicyP.v", "Proofs/AllocCountP.v", "Proofs/AllocFormulaP.v"])
+    ctx.coq_build(["Properties/C11.v"] + ac.COQ_FILES + allocmaps_part.COQ_FILES)
+    ctx.coq_theorems("Properties/C11.v", ac.CLOSURE + ["Proofs/AllocP.v", "Proofs/AllocPolicyP.v", "Proofs/AllocCountP.v", "Proofs/AllocFormulaP.v"] + allocmaps_part.CLOSURE)
     cases, st, mism, search = ac.run_alloc(ctx, SIGS)
     # the IPAddressPool status written by the pool status reconciler equals the allocator's counters
     n_ps, st_ps = poolstatus_part.run_poolstatus(ctx, None)
+    # the allocator's derived maps (sharingKeyForIP, portsInUse, servicesOnIP, poolIP*InUse) refine the model: memory = rebuild
+    n_am, st_am = allocmaps_part.run_allocmaps(ctx, None)
     nsteps = sum(len(c["in"]) for c in cases)
     distinct = len({json.dumps(c["in"], sort_keys=True) for c in cases if len(c["in"]) >= 3})
-    ctx.cov["correspondence"] = {"histories": len(cases), "operations": nsteps, "mismatches": len(mism), "generator_counters": st, "pool_status_reconciles": n_ps, "pool_status_counters": st_ps}
+    ctx.cov["correspondence"] = {"histories": len(cases), "operations": nsteps, "mismatches": len(mism), "generator_counters": st, "pool_status_reconciles": n_ps, "pool_status_counters": st_ps,
+                                 "allocmaps_histories": n_am, "allocmaps_counters": st_am}
     ctx.trusted += ["internal/k8s/controllers/pool_status_controller.go is not modelled: the real PoolStatusReconciler is driven with scripted counters and its written status compared with them (oracle only)",
                     "model covers internal/allocator/allocator.go: Assign, Unassign, Allocate, AllocateFromPool, AllocateFromPoolForAdditionalFamily, SetPools, checkSharing, sharingOK, poolFor, isPoolCompatibleWithService, pinnedPoolsForService, findBestPoolForService, getFreeIPsFromPool/getIPFromCIDR, poolCount, updatePoolStats, CountersForPool; allocation.go selectIPsForFamilyAndPolicy",
                     "the allocator's derived maps (sharingKeyForIP, portsInUse, servicesOnIP, poolIP*InUse) are modelled as functions of the service->allocation map; their agreement with the Go maps is checked after every operation by checkSharing probes and counters (correspondence), not proved",
